@@ -56,11 +56,8 @@ def spec_int(s):
 
 def check(run):
     run.level = "proof"
-    try:
-        from checks import _c19_theorems
-        run.prove("ZkProofs.C19", _c19_theorems.THEOREMS)
-    except ImportError:
-        run.note("proof module for C19 not present yet")
+    from checks import _c19_theorems
+    run.prove(_c19_theorems.THEOREMS)
     rng = run.rng
     quick = run.tier == "quick"
     ks = [8, 16, 31, 32, 63, 64, 65, 127, 128, 129, 191, 192, 193, 252, 253] if quick else list(range(8, 255))
